@@ -362,7 +362,12 @@ func TestUDP(t *testing.T) {
 		service := rapid.SampledFrom(svc.UDPServices).Draw(rt, "service")
 		var d svc.Dialog
 		if (service == "snmp" || service == "dns") && rapid.Bool().Draw(rt, "big") {
-			d = genUDPBig(rt, service)
+			snmpMax := 1400
+			if service == "snmp" && excludedFinding(r, kfSNMPLong) {
+				snmpMax = 127 // whole message in the short length form
+				r.Excluded(kfSNMPLong)
+			}
+			d = genUDPBig(rt, service, snmpMax)
 			service += "-big"
 		} else {
 			d = svc.GenUDP(rt, service)
